@@ -95,7 +95,7 @@ def archive_case(n, rng):
         variant = rng.choice([1, 1, 2])
         cols, data_offset = random_schema(rng, variant)
         npages = rng.randint(1, 3)
-        langs = rng.choice([[0], [1, 2, 3, 4], [2]])
+        langs = rng.choice([[0], [1, 2, 3, 4], [2], [5, 6, 7], [1, 2, 3, 4, 5, 6, 7]])
         pages, start = [], rng.choice([0, 1, 500])
         for _ in range(npages):
             cnt = rng.randint(1, 4)
@@ -121,7 +121,7 @@ def archive_case(n, rng):
     inst.add_entry(0, 10, 0, 1, list(b"exd/root.exl"), 0, off)
     lines = [inst.open_line(1, n)]
     for s in sheets:
-        for lang in s["langs"][:2]:
+        for lang in (s["langs"] if len(s["langs"]) == 3 or rng.random() < 0.3 else s["langs"][:2]):
             for pi, (st, cnt) in enumerate(s["pages"]):
                 lines.append({"op": "excel.sheet", "h": 1, "case": n, "name": list(s["name"].encode()), "lang": lang, "page": pi,
                               "start": st, "ids": [st, st + cnt - 1, st + cnt + 5]})
@@ -153,6 +153,11 @@ def check(run):
     for _ in range(40 if run.tier == "quick" else 300):
         cases.append(archive_case(n, rng))
         n += 1
+    # sub-row positions beyond 16 bits: 18 sub-rows of a 4094-byte fixed region (sub-row 16 starts at byte 65536 of the row)
+    big_cols = [(5, 0), (3, 4093), (7, 2000)]
+    big_rows = [(3, [[rvalue(rng, t) for t, _ in big_cols] for _ in range(18)]), (4, [[rvalue(rng, t) for t, _ in big_cols] for _ in range(2)])]
+    cases.append(read_case(n, 4094, 2, big_cols, big_rows, [5], {"wide sub-rows": [4094, 18]}))
+    n += 1
     run.rule = ("every schema of 1..2 columns over all 19 column types at all non-overlapping offsets of an 8-byte fixed region, plain "
                 "and sub-row sheets with 1..3 sub-rows, enumerated by TLC (quick: a seeded quarter) and written by gen/excel.py; random "
                 "sheets (1..40 columns, shared packed-bool bytes, 1..200 rows, extreme values, unknown ids); sheets stored in synthetic "
